@@ -262,13 +262,14 @@ def rot_case(draw):
     a = draw(st.integers(0, nd - 1))
     b = draw(st.integers(0, nd - 1).filter(lambda x: x != a))
     c["ax"] = [a, b]
-    if (dims[a] in c["bc"]) != (dims[b] in c["bc"]):
-        if draw(st.booleans()):  # make both periodic, else both open
-            c["bc"] = "".join(d for d in dims if d in c["bc"] or d in (dims[a], dims[b]))
-            if any(len(d) != 1 for d in (dims[a], dims[b])):
-                c["bc"] = "".join(d for d in c["bc"] if d not in (dims[a], dims[b]))
+    per = [d for d in dims if len(d) == 1 and d in c["bc"]]  # periodic directions (single-letter names only)
+    if (dims[a] in per) != (dims[b] in per):
+        both_ok = all(len(d) == 1 and d.islower() for d in (dims[a], dims[b]))
+        if both_ok and draw(st.booleans()):  # make both periodic, else both open
+            per = [d for d in dims if d in per or d in (dims[a], dims[b])]
         else:
-            c["bc"] = "".join(d for d in c["bc"] if d not in (dims[a], dims[b]))
+            per = [d for d in per if d not in (dims[a], dims[b])]
+    c["bc"] = "".join(per)
     c["kturn"] = draw(st.integers(1, 3))
     c["op"] = op
     if op == "grad" or (op == "laplace" and draw(st.booleans())):
